@@ -91,7 +91,7 @@ func (m c08) Run(ctx *core.Ctx) {
 				text = gen.RandomIPv6(r)
 			}
 			arr := []string{"[" + text, text + "]", "[[" + text + "]]", "[" + text + "]]", "[[" + text + "]", "[" + text + "]x", "x[" + text + "]",
-				"[][" + text + "]", "[" + text + "][]", "[" + text + "[]", "[" + text + "]:80", "[" + text + "]:", "[" + text + "]:x", "[]", "[", "]", "[[]]", "[" + text + "%5D", "%5B" + text + "]", "[" + text + "] "}
+				"[][" + text + "]", "[" + text + "][]", "[" + text + "[]", "[" + text + "]:80", "[" + text + "]:", "[" + text + "]:x", "[]", "[", "]", "[[]]", "[:]", "[::", "[:::]", "[::]", "[::1]", "[::ffff:1.2.3.4]", "[::ffff:102:304]", "[" + text + "%5D", "%5B" + text + "]", "[" + text + "] "}
 			cs = &core.Case{Check: "arrangement", Input: core.S(gen.Pick(r, arr)), Config: []string{scheme}}
 		case 7:
 			cs = &core.Case{Check: "text", Input: core.S(gen.Mutate(r, gen.RandomIPv6(r))), Config: []string{scheme}}
